@@ -1,9 +1,12 @@
 import PrologVerif.Driver.Common
 import PrologVerif.Driver.C18
+import PrologVerif.Driver.C07
 open PrologVerif PrologVerif.Driver
 
 def handlers : List (String × Handler) :=
-  [ ("c18.hist", C18.handler) ]
+  [ ("c18.hist", C18.handler),
+    ("c07.kernels", C07.kernelsHandler),
+    ("c07.queries", C07.queriesHandler) ]
 
 partial def loop (h : IO.FS.Stream) (out : IO.FS.Stream) (f : Handler) : IO Unit := do
   let line ← h.getLine
